@@ -181,7 +181,8 @@ func applyRow(t *rapid.T, c *Case, row Row, op *hx.Op) {
 // noteDirective is a directive of the schema's own that requests may put on selections; it says
 // nothing about inclusion.
 func noteDirective() *hx.DirDef {
-	return &hx.DirDef{Name: "note", Args: []*hx.Arg{{Name: "text", Type: hx.Named("String")}}, On: []string{"FIELD", "FRAGMENT_SPREAD", "INLINE_FRAGMENT"}}
+	// (it has an argument called "if" of its own, which has nothing to do with the one of @skip and @include)
+	return &hx.DirDef{Name: "note", Args: []*hx.Arg{{Name: "text", Type: hx.Named("String")}, {Name: "if", Type: hx.Named("Boolean")}}, On: []string{"FIELD", "FRAGMENT_SPREAD", "INLINE_FRAGMENT"}}
 }
 
 // withForeignDirective writes a use of @note at position pos among the directives of the selection.
@@ -200,7 +201,9 @@ func withForeignDirective(c *Case, target *hx.Sel, pos int) {
 	}
 	du := hx.DirUse{Name: "note"}
 	if pos%2 == 1 {
-		du.Args = []hx.KV{{Key: "text", V: hx.Str("n")}}
+		du.Args = []hx.KV{{Key: "text", V: hx.Str("n")}, {Key: "if", V: hx.Bool(false)}}
+	} else {
+		du.Args = []hx.KV{{Key: "if", V: hx.Bool(true)}}
 	}
 	ds := append([]hx.DirUse{}, target.Dirs[:pos]...)
 	ds = append(ds, du)
